@@ -147,6 +147,17 @@ class MonoTimer(Timer):
         self.start(duration=duration, start=start)
 
 
+    def start(self, duration=None, start=None):
+        """Starts Timer of duration secs at start time start secs.
+            If duration not provided then uses current duration
+            If start not provided then starts at current time.time()
+            which is then also the latest measured time
+        """
+        result = super(MonoTimer, self).start(duration=duration, start=start)
+        if start is None:  # resync so earlier retrograde is not applied to new start
+            self._last = self._start
+        return result
+
     @property
     def elapsed(self):
         """elapsed time property getter,
